@@ -25,7 +25,7 @@ Definition lock_name_suffix : list N := [46; 108; 111; 99; 107].
 Definition lock_name_max : N := 1023.
 (* sock_create: n = strlcpy (addr.sun_path, conf->socket_name, sock_copy_size); if (n OP sock_len_bound) exit *)
 Definition sun_path_cap : N := 108.
-Definition sock_copy_size : N := 107.
+Definition sock_copy_size : N := 108.
 Definition sock_len_bound : N := 108.
 (* the length test, translated from the text: `if (n >= sizeof (addr.sun_path))` exits *)
 Definition sock_len_refuses (n : N) : bool := (sock_len_bound <=? n).
